@@ -47,6 +47,8 @@ type layerLog struct {
 	// call's chain) until the gate opens, so that another streaming call overlaps with it
 	gate, inside chan struct{}
 	gateOnce     sync.Once
+	// slices: what the scenario passed to WithInterceptors(slice...); the program reuses them afterwards
+	slices [][]connect.Interceptor
 }
 
 func (l *layerLog) add(dst *[]string, n string) {
@@ -252,6 +254,7 @@ func buildOpts(nodes []optNode, side string, log *layerLog, rl *recoverLog, rec 
 				}
 			}
 			o := connect.WithInterceptors(ics...)
+			log.slices = append(log.slices, ics) // the caller's slice: overwritten once client and handler exist
 			copts = append(copts, o)
 			hopts = append(hopts, o)
 			continue
@@ -427,6 +430,15 @@ func runOpts(raw json.RawMessage, seed int64, rec *Rec) {
 		h.ServeHTTP(w, r)
 	})
 	client := connect.NewClient[BV, BV](&memTransport{h: wrapped, major: 2}, "http://verif.test"+e2eProc, copts...)
+	// client and handler exist: the program goes on to use its slices for something else (every third scenario). The
+	// chains were fixed at construction.
+	if s.Tid%3 == 2 {
+		for _, sl := range log.slices {
+			for i := range sl {
+				sl[i] = &namedInterceptor{name: "Y", log: log, side: s.Side}
+			}
+		}
+	}
 	ctx := context.Background()
 	var cerr error
 	got := 0
